@@ -2,6 +2,9 @@
 pub mod c01;
 pub mod c02;
 pub mod c02_table;
+pub mod c03;
+pub mod inst;
+pub mod c07;
 pub mod c16;
 pub mod c17;
 pub mod c19;
@@ -26,6 +29,15 @@ pub fn dispatch(op: &str, input: &Tree) -> Result<Tree, String> {
         return r;
     }
     if let Some(r) = c17::dispatch(op, input) {
+        return r;
+    }
+    if let Some(r) = c03::dispatch(op, input) {
+        return r;
+    }
+    if let Some(r) = c07::dispatch(op, input) {
+        return r;
+    }
+    if let Some(r) = inst::dispatch(op, input) {
         return r;
     }
     Err(format!("unknown op {op}"))
